@@ -435,7 +435,13 @@ func lowerRangeBinding(env *Zlisp, targets []*SexpSymbol, define bool, sourceSym
 
 	pair := prattCall(env, "__rangePair", sourceSym, indexSym)
 	if define {
-		return prattCall(env, "mdef", targets[0], targets[1], pair)
+		// fresh variables each iteration: keys and values may change type.
+		scoped := []Sexp{
+			env.MakeSymbol("newScope"),
+			prattCall(env, "mdef", targets[0], targets[1], pair),
+		}
+		scoped = append(scoped, body...)
+		return MakeList(scoped)
 	}
 
 	pairSym := env.GenSymbol("__range_pair")
@@ -496,7 +502,7 @@ func lowerRangeFor(env *Zlisp, label *SexpSymbol, header []Sexp, body []Sexp) (S
 
 	binding := lowerRangeBinding(env, targets, op == ":=", sourceSym, indexSym, body)
 	forBody := []Sexp{binding}
-	if !(len(targets) == 2 && op == "=") {
+	if len(targets) != 2 {
 		forBody = append(forBody, body...)
 	}
 	forLoop := prattForList(env, label, control, forBody)
